@@ -39,7 +39,14 @@ C09OK(e) ==
                 \* a constant common tail is named separately: a normalised ratio of quantities that all vanish there (LaguerreRSI:
                 \* CU/(CU+CD) of stage differences decaying like gamma^t) has a limit that depends on the past even in exact
                 \* arithmetic - known finding KF2; every other view, and every other tail, must converge
-                \/ Report(IF "tail" \in DOMAIN e /\ e.tail = "constant" THEN "early-values-do-not-fade-on-a-constant-tail"
+                \* TrendFlex / ReFlex divide a mean slope d (decaying like a1^t on a constant tail, a1 = exp(-8.884/N)) by sqrt(ms),
+                \* ms = 0.04 d^2 + 0.96 ms.  While a1^2 < 0.96 the normaliser outlives the slope and the answer fades to 0; from
+                \* a1^2 >= 0.96 on (N >= 436) it does not, and the sign of the limit is the direction of approach - known finding KF3,
+                \* attributed only where the specification's own coefficient says so
+                \/ Report(IF "tail" \in DOMAIN e /\ e.tail = "constant"
+                          THEN (IF e.cfg.k \in {"TrendFlex", "ReFlex"} /\ WCmp(FNeg(FlexCoef(e.cfg.n)[3]), FQ(96, 100)) >= 0
+                                THEN "early-values-do-not-fade-on-a-constant-tail-slow-smoother"
+                                ELSE "early-values-do-not-fade-on-a-constant-tail")
                           ELSE "early-values-do-not-fade")
              \* where the experiment says so, the two runs must already agree at every recorded answer from input number
              \* `agree_from` on (a long flat run has let everything decay; movement resumes there), not only at the very end
